@@ -53,12 +53,14 @@ impl Ex {
     pub fn show(&self) -> String {
         match self {
             Ex::Num(r, i) => {
+                // extreme magnitudes in exponent form (reports and fingerprints only)
+                let f = |x: f64| if x != 0.0 && (x.abs() < 1e-5 || x.abs() >= 1e16) { format!("{x:e}") } else { format!("{x}") };
                 if *i == 0.0 {
-                    format!("{r}")
+                    f(*r)
                 } else if *r == 0.0 {
-                    format!("{i}i")
+                    format!("{}i", f(*i))
                 } else {
-                    format!("<{r}{}{i}i>", if *i < 0.0 { "" } else { "+" })
+                    format!("<{}{}{}i>", f(*r), if *i < 0.0 { "" } else { "+" }, f(*i))
                 }
             }
             Ex::Pi => "pi".into(),
